@@ -37,7 +37,9 @@ SkipAllowed(e) ==
     LET G == Scope[e.si].nodes
         r == DecAll(G, e.bytes)
     IN  CASE r.st = "ok"   -> e.res = "ok" /\ e.value = Blank(G, 1, r.v, e.path) /\ e.consumed = r.pos - 1
-          [] r.st = "err"  -> e.res = "err"
+          \* C12 speaks of VALID encodings only.  On a malformed one the ignoring target may or may not notice (the skip paths
+          \* validate neither UTF-8 nor enum indices, and that is what the property expects of them); it must return (C04)
+          [] r.st = "err"  -> e.res \in {"ok", "err"}
           [] r.st = "free" -> e.res \in {"ok", "err"}
 
 Init == l = 1
